@@ -89,10 +89,41 @@ func (g *verifGhost41) step() {
 	masks := []virtual.ShareMask{virtual.ShareMaskRead, virtual.ShareMaskWrite, virtual.ShareMaskRead | virtual.ShareMaskWrite}
 	switch rt.Choose(9) {
 	case 0: // OPEN (new or upgrade)
-		owner := owners[rt.Choose(2)]
-		file := files[rt.Choose(2)]
-		mask := masks[rt.Choose(3)]
-		if ok, isOK := r.open(owner, file, mask).(*nfsv4.Open4res_NFS4_OK); isOK {
+		var owner, file string
+		var mask virtual.ShareMask
+		claim := 0
+		if rt.NondetBool("OPEN by file handle (CLAIM_FH / CLAIM_PREVIOUS)") {
+			// (one owner and mask here, to keep the alphabet small)
+			claim = 1 + rt.Choose(3)
+			owner, file, mask = owners[0], files[rt.Choose(2)], virtual.ShareMaskRead
+		} else {
+			owner = owners[rt.Choose(2)]
+			file = files[rt.Choose(2)]
+			mask = masks[rt.Choose(3)]
+		}
+		var ores nfsv4.Open4res
+		had := false
+		for _, o := range g.opens {
+			if o.live && o.owner == owner && o.file == file {
+				had = true
+			}
+		}
+		if claim == 0 {
+			ores = r.open(owner, file, mask)
+		} else {
+			ores = r.openClaim(owner, file, mask, claim)
+			switch claim {
+			case 1:
+				rt.Cover("41:open-claim-fh")
+			case 2:
+				rt.Cover("41:open-claim-previous")
+				rt.Assert((ores.GetStatus() == nfsv4.NFS4_OK) == had, "CLAIM_PREVIOUS only re-opens a file the owner already has open")
+			case 3:
+				rt.Cover("41:open-claim-previous-delegation")
+				rt.Assert(ores.GetStatus() != nfsv4.NFS4_OK, "a reclaim asking for a delegation is refused")
+			}
+		}
+		if ok, isOK := ores.(*nfsv4.Open4res_NFS4_OK); isOK {
 			rt.Cover("41:open")
 			found := false
 			for _, o := range g.opens {
@@ -241,7 +272,7 @@ func verifHarness_C18_Sequence41() {
 		k = 5
 	}
 	rt.Bound("operations_after_prefix", k)
-	rt.MustCover("41:open", "41:open-upgrade", "41:close", "41:downgrade", "41:lock-new-owner", "41:locku", "41:free-stateid", "41:free-stateid-locks-held", "41:new-incarnation", "41:lease-expired", "41:lease-not-expired", "41:unlinked-still-reachable", "41:destroy-session")
+	rt.MustCover("41:open", "41:open-claim-fh", "41:open-claim-previous", "41:open-claim-previous-delegation", "41:open-upgrade", "41:close", "41:downgrade", "41:lock-new-owner", "41:locku", "41:free-stateid", "41:free-stateid-locks-held", "41:new-incarnation", "41:lease-expired", "41:lease-not-expired", "41:unlinked-still-reachable", "41:destroy-session")
 	r := verifNewRig41("f", "g")
 	g := &verifGhost41{r: r, gen: 1}
 	r.login("client-a", 1)
